@@ -123,9 +123,15 @@ def run(ck, P):
     for n in ("m_mem_ref", "m_mem_unref", "m_mem_unrefp", "m_mem_size"):
         f = P.fn(n, U)
         arg = f.params[0]["name"]
-        uses = [ev for ev in f.events() if ev.kind in ("call", "assign", "decl") and
-                any(x.get("k") == "var" and x.get("name") == arg for x in lm.walk(ev.e if ev.kind != "decl" else (ev.rhs or {})))
-                and not (ev.kind == "ret")]
+        def _deref_use(ev, arg=arg):
+            # the argument is dereferenced, or handed to a callee, somewhere in this event (a plain `return src;` is neither)
+            e0 = ev.e if ev.kind != "decl" else (ev.rhs or {})
+            for x in lm.walk(e0):
+                if (x.get("k") == "member" and x.get("arrow")) or (x.get("k") == "un" and x.get("op") == "*") or x.get("k") in ("index", "call"):
+                    if any(y.get("k") == "var" and y.get("name") == arg for y in lm.walk(x)):
+                        return True
+            return False
+        uses = [ev for ev in f.events() if _deref_use(ev)]
         ok = bool(uses) and all(has(X.facts(f, ev), arg) for ev in uses)
         ck.ob("C10.5-NULL-OK", f.site("NULL tolerated"), ok, "%d use(s) of '%s' all under a non-NULL test: %s" % (len(uses), arg, ok))
 
